@@ -18,13 +18,38 @@ where
 {
     /// # Cancel safety
     ///
-    /// This is cancel safe because all internal `.await` are cancel safe
+    /// Every `.await` is cancel safe by itself, but a delivery that needs more than one
+    /// transfer is left half sent if this is dropped between two of them. `send_payload`
+    /// reserves room for all transfers first and does not come here.
     pub(crate) async fn send_transfer_without_modifying_unsettled_map(
         &self,
         writer: &mpsc::Sender<LinkFrame>,
+        transfer: Transfer,
+        payload: Payload,
+    ) -> Result<bool, LinkStateError> {
+        let (settled, frames) = self.link_transfers(transfer, payload)?;
+        for frame in frames {
+            writer
+                .send(frame)
+                .await // cancel safe
+                .map_err(|_| self.writer_closed())?;
+        }
+        Ok(settled)
+    }
+
+    fn writer_closed(&self) -> LinkStateError {
+        match self.session_stop_reason.get() {
+            Some(reason) => LinkStateError::SessionStopped(reason.clone()),
+            None => LinkStateError::IllegalState, // defensive: no stop reason recorded; failure is link-local
+        }
+    }
+
+    /// The transfers that carry one delivery: the payload is cut at max-message-size
+    fn link_transfers(
+        &self,
         mut transfer: Transfer,
         mut payload: Payload,
-    ) -> Result<bool, LinkStateError> {
+    ) -> Result<(bool, Vec<LinkFrame>), LinkStateError> {
         let settled = transfer.settled.unwrap_or(match self.snd_settle_mode {
             SenderSettleMode::Settled => true,
             SenderSettleMode::Unsettled => false,
@@ -34,33 +59,23 @@ where
             .input_handle
             .clone()
             .ok_or(LinkStateError::IllegalState)?;
+        let mut frames = Vec::new();
 
         // Check message size
         // If this field is zero or unset, there is no maximum size imposed by the link endpoint.
         let more = (self.max_message_size != 0) && (payload.len() as u64 > self.max_message_size);
         if !more {
             transfer.more = false;
-            send_transfer(
-                writer,
-                input_handle,
-                transfer,
-                payload.clone(),
-                &self.session_stop_reason,
-            )
-            .await?;
-        // cancel safe
+            frames.push(transfer_frame(input_handle, transfer, payload));
         } else {
-            // Send the first frame
+            // The first frame
             let partial = payload.split_to(self.max_message_size as usize);
             transfer.more = true;
-            send_transfer(
-                writer,
+            frames.push(transfer_frame(
                 input_handle.clone(),
                 transfer.clone(),
                 partial,
-                &self.session_stop_reason,
-            )
-            .await?; // cancel safe
+            ));
 
             // Only the first transfer of a delivery carries the delivery-tag: the session
             // assigns a new delivery-id to every transfer that has one. This must also hold
@@ -69,37 +84,125 @@ where
             transfer.message_format = None;
             transfer.settled = None;
 
-            // Send the transfers in the middle
+            // The transfers in the middle
             while payload.len() > self.max_message_size as usize {
                 let partial = payload.split_to(self.max_message_size as usize);
-                send_transfer(
-                    writer,
+                frames.push(transfer_frame(
                     input_handle.clone(),
                     transfer.clone(),
                     partial,
-                    &self.session_stop_reason,
-                )
-                .await?;
-                // cancel safe
+                ));
             }
 
-            // Send the last transfer
+            // The last transfer
             // For messages that are too large to fit within the maximum frame size, additional
             // data MAY be trans- ferred in additional transfer frames by setting the more flag on
             // all but the last transfer frame
             transfer.more = false;
-            send_transfer(
-                writer,
-                input_handle,
-                transfer,
-                payload,
-                &self.session_stop_reason,
-            )
-            .await?;
-            // cancel safe
+            frames.push(transfer_frame(input_handle, transfer, payload));
         }
 
-        Ok(settled)
+        Ok((settled, frames))
+    }
+
+    /// How many transfers `link_transfers` makes of a payload
+    fn transfer_count(&self, payload_len: usize) -> usize {
+        if self.max_message_size == 0 || payload_len as u64 <= self.max_message_size {
+            1
+        } else {
+            payload_len.div_ceil(self.max_message_size as usize)
+        }
+    }
+
+    /// Waits until the delivery can go out in one go - a credit is there and the session's
+    /// queue has room for all of its transfers - and only then takes the credit.
+    ///
+    /// # Cancel safety
+    ///
+    /// Everything that is awaited here leaves the link untouched when it is dropped: the
+    /// credit is taken, synchronously, after the last await. A send that is cancelled
+    /// while it waits therefore neither uses up a credit nor leaves half a delivery behind.
+    pub(crate) async fn credit_and_room_or_detached<'a, Fut>(
+        &mut self,
+        writer: &'a mpsc::Sender<LinkFrame>,
+        detached: Fut,
+        transfers: usize,
+    ) -> Result<([u8; 4], mpsc::PermitIterator<'a, LinkFrame>), LinkStateError>
+    where
+        Fut: Future<Output = Option<LinkFrame>> + Send,
+    {
+        tokio::pin!(detached);
+        loop {
+            tokio::select! {
+                // A detach that the peer has already sent is looked at first: with credit
+                // available both branches are ready, and sending on a link the peer has
+                // detached would lose the message and leave the detach unanswered.
+                biased;
+
+                frame = &mut detached => { // cancel safe
+                    return Err(self.on_frame_while_sending(writer, frame).await);
+                },
+                permits = async {
+                    self.flow_state.credit_available(1).await;
+                    writer.reserve_many(transfers).await
+                } => {
+                    let permits = permits.map_err(|_| self.writer_closed())?;
+                    // link-credit is defined as
+                    // "The current maximum number of messages that can be handled
+                    // at the receiver endpoint of the link"
+                    //
+                    // A flow may have taken the credit back while room was awaited
+                    match self.flow_state.take_credit(1) {
+                        Some(tag) => return Ok((tag, permits)),
+                        None => continue,
+                    }
+                }
+            }
+        }
+    }
+
+    /// What a frame from the session means to a send in progress: the peer detached
+    async fn on_frame_while_sending(
+        &mut self,
+        writer: &mpsc::Sender<LinkFrame>,
+        frame: Option<LinkFrame>,
+    ) -> LinkStateError {
+        match frame {
+            // If remote has detached the link
+            Some(LinkFrame::Detach(detach)) => {
+                let closed = detach.closed;
+                if let Err(err) = self.send_detach(writer, closed, None).await {
+                    return err.into();
+                }
+                let result = self.on_incoming_detach(detach);
+                if closed {
+                    self.abandon_delivery_waiters();
+                }
+
+                match (result, closed) {
+                    (Ok(_), true) => LinkStateError::RemoteClosed,
+                    (Ok(_), false) => LinkStateError::RemoteDetached,
+                    (Err(err), _) => LinkStateError::from(err),
+                }
+            }
+            Some(_frame) => {
+                // Other frames should not forwarded to the sender by the session
+                #[cfg(feature = "tracing")]
+                tracing::error!("Unexpected frame: {:?}", _frame);
+                #[cfg(feature = "log")]
+                log::error!("Unexpected frame: {:?}", _frame);
+
+                LinkStateError::ExpectImmediateDetach
+            }
+            None => {
+                // The channel closed without a frame: the session (or its
+                // connection) stopped and the engine dropped the relay.
+                match self.session_stop_reason.get() {
+                    Some(reason) => LinkStateError::SessionStopped(reason.clone()),
+                    None => LinkStateError::ExpectImmediateDetach, // defensive: no stop reason recorded; failure is link-local
+                }
+            }
+        }
     }
 
     pub(crate) async fn get_delivery_tag_or_detached<Fut>(
@@ -119,42 +222,7 @@ where
             biased;
 
             frame = detached => { // cancel safe
-                match frame {
-                    // If remote has detached the link
-                    Some(LinkFrame::Detach(detach)) => {
-                        // FIXME: if the sender is not trying to send anything, this is
-                        // probably not responsive enough
-                        let closed = detach.closed;
-                        self.send_detach(writer, closed, None).await?;
-                        let result = self.on_incoming_detach(detach);
-                        if closed {
-                            self.abandon_delivery_waiters();
-                        }
-
-                        match (result, closed) {
-                            (Ok(_), true) => Err(LinkStateError::RemoteClosed),
-                            (Ok(_), false) => Err(LinkStateError::RemoteDetached),
-                            (Err(err), _) => Err(LinkStateError::from(err)),
-                        }
-                    },
-                    Some(_frame) => {
-                        // Other frames should not forwarded to the sender by the session
-                        #[cfg(feature = "tracing")]
-                        tracing::error!("Unexpected frame: {:?}", _frame);
-                        #[cfg(feature = "log")]
-                        log::error!("Unexpected frame: {:?}", _frame);
-
-                        Err(LinkStateError::ExpectImmediateDetach)
-                    }
-                    None => {
-                        // The channel closed without a frame: the session (or its
-                        // connection) stopped and the engine dropped the relay.
-                        match self.session_stop_reason.get() {
-                            Some(reason) => Err(LinkStateError::SessionStopped(reason.clone())),
-                            None => Err(LinkStateError::ExpectImmediateDetach), // defensive: no stop reason recorded; failure is link-local
-                        }
-                    }
-                }
+                Err(self.on_frame_while_sending(writer, frame).await)
             },
             tag = self.flow_state.consume(1) => {
                 // link-credit is defined as
@@ -251,7 +319,20 @@ where
     where
         Fut: Future<Output = Option<LinkFrame>> + Send,
     {
-        let tag = self.get_delivery_tag_or_detached(writer, detached).await?;
+        // Room for every transfer of the delivery is reserved together with the credit, so
+        // that dropping this future never leaves a credit used up or half a delivery sent.
+        // A delivery of more transfers than the session's queue can ever hold cannot be
+        // queued in one go and goes the old way.
+        let transfers = self.transfer_count(payload.len());
+        let (tag, permits) = if transfers <= writer.max_capacity() {
+            let (tag, permits) = self
+                .credit_and_room_or_detached(writer, detached, transfers)
+                .await?;
+            (tag, Some(permits))
+        } else {
+            let tag = self.get_delivery_tag_or_detached(writer, detached).await?;
+            (tag, None)
+        };
         // Delivery count is incremented when consuming credit
         let delivery_tag = DeliveryTag::from(tag);
 
@@ -263,7 +344,7 @@ where
             batchable,
         )?;
 
-        self.send_payload_with_transfer(writer, message_format, transfer, payload)
+        self.send_payload_with_transfer(writer, permits, message_format, transfer, payload)
             .await
     }
 
@@ -273,6 +354,7 @@ where
     async fn send_payload_with_transfer(
         &self,
         writer: &mpsc::Sender<LinkFrame>,
+        permits: Option<mpsc::PermitIterator<'_, LinkFrame>>,
         message_format: MessageFormat,
         transfer: Transfer,
         payload: Payload,
@@ -284,9 +366,23 @@ where
             .delivery_tag
             .clone()
             .ok_or(LinkStateError::IllegalState)?;
-        let settled = self
-            .send_transfer_without_modifying_unsettled_map(writer, transfer, payload)
-            .await?;
+        let settled = match permits {
+            // no await: all transfers are queued, or none
+            Some(permits) => {
+                let (settled, frames) = self.link_transfers(transfer, payload)?;
+                if frames.len() > permits.len() {
+                    return Err(LinkStateError::IllegalState);
+                }
+                for (permit, frame) in permits.zip(frames) {
+                    permit.send(frame);
+                }
+                settled
+            }
+            None => {
+                self.send_transfer_without_modifying_unsettled_map(writer, transfer, payload)
+                    .await?
+            }
+        };
         match settled {
             true => Ok(Settlement::Settled(delivery_tag)),
             // If not set on the first (or only) transfer for a (multi-transfer)
@@ -433,29 +529,13 @@ where
     }
 }
 
-/// # Cancel safety
-///
-/// This is cancel safe because it only involves `.await` on sending over `tokio::mpsc::Sender`
 #[inline]
-async fn send_transfer(
-    writer: &mpsc::Sender<LinkFrame>,
-    input_handle: InputHandle,
-    transfer: Transfer,
-    payload: Payload,
-    session_stop_reason: &OnceLock<SessionStopReason>,
-) -> Result<(), LinkStateError> {
-    let frame = LinkFrame::Transfer {
+fn transfer_frame(input_handle: InputHandle, transfer: Transfer, payload: Payload) -> LinkFrame {
+    LinkFrame::Transfer {
         input_handle,
         performative: transfer,
         payload,
-    };
-    writer
-        .send(frame)
-        .await // cancel safe
-        .map_err(|_| match session_stop_reason.get() {
-            Some(reason) => LinkStateError::SessionStopped(reason.clone()),
-            None => LinkStateError::IllegalState, // defensive: no stop reason recorded; failure is link-local
-        })
+    }
 }
 
 #[inline]
